@@ -127,7 +127,13 @@ func svNewBatch(checkCharge bool) {
 		e.k.SetRequestVolume(e.ctx, e.consumer, svService, e.p1, 3) // the volume discount applies
 	}
 	threshold := uint32(verifChoice("threshold", 2) + 1)
-	rc0 := e.context(providers, verifIntIn("feeCap", one, w), threshold, types.RUNNING, verifChoice("repeated", 2) == 1)
+	// the context may have been paused by its consumer after this batch was queued
+	paused := verifChoice("paused", 2) == 1
+	ctxState := types.RUNNING
+	if paused {
+		ctxState = types.PAUSED
+	}
+	rc0 := e.context(providers, verifIntIn("feeCap", one, w), threshold, ctxState, verifChoice("repeated", 2) == 1)
 	// arbitrary state left behind by earlier batches of a repeated context
 	prevBatches := verifUint64("prevBatches")
 	prevReq, prevResp := verifUint32("prevRequestCount"), verifUint32("prevResponseCount")
@@ -148,9 +154,15 @@ func svNewBatch(checkCharge bool) {
 	verifAssert(!panicked, "end-block never panics")
 	charged := verifSub(c0, e.bal(e.consumer))
 	verifAssert(verifSub(e.reqEscrow(), r0).Cmp(charged) == 0, "what the consumer pays goes into the request escrow")
-	verifAssert(!e.k.HasNewRequestBatch(e.ctx, e.ctxID), "the new-batch entry is consumed")
+	verifAssert(!e.k.HasNewRequestBatch(e.ctx, e.ctxID) && !e.store().Has(types.GetNewRequestBatchKey(e.ctxID, svHeight)), "the new-batch entry is consumed at its due height (also for a paused context)")
 	rc, found := e.k.GetRequestContext(e.ctx, e.ctxID)
 	verifAssert(found, "the context survives its batch start")
+	if paused {
+		idsP, _ := e.batchRequests(rc.BatchCounter)
+		verifAssert(charged.Sign() == 0 && rc.BatchCounter == prevBatches && len(idsP) == 0 && rc.State == types.PAUSED, "a paused context issues nothing and is charged nothing")
+		verifCover("not-issued")
+		return
+	}
 	ids, fees := e.batchRequests(rc.BatchCounter)
 	if len(ids) == 0 {
 		verifCover("not-issued")
